@@ -1126,6 +1126,7 @@ def _cfg_for_spec(cfg):
             "raw_init": bool(cfg.get("raw_init", False)),
             "sampled": bool(cfg.get("sampled", False)), "init_weights": cfg.get("init_weights", "none"),
             # a penalised fit (ridge, l1 sparsity) minimises another objective than the reconstruction error
+            "reorth": bool(cfg.get("orthogonalise")),
             "penalised": bool(cfg.get("l2_reg") or cfg.get("core_sparsity") or any(x for x in (cfg.get("sparsity_coefficients") or []) if x))}
 
 
